@@ -365,6 +365,11 @@ func cmdRun(args []string) int {
 		fmt.Printf("(%d further violations in %d classes not written out)\n", len(fresh)-reported, len(seenClass))
 	}
 
+	if v := os.Getenv("VERIF_RACE_REPORTS"); v != "" {
+		n, _ := strconv.Atoi(v)
+		total.Count("race_detector_reports_over_200_run_indices", int64(n))
+		total.Count("race_detector_pass_done", 1)
+	}
 	wall := time.Since(start).Seconds()
 	if !*noEvidence {
 		if err := writeEvidence(c, *prop, *tier, seed, total, len(fresh), wall, runs); err != nil {
